@@ -1078,6 +1078,10 @@ func (ctx *Context) evaluate() {
 			stackPush(ret)
 
 		case typeDiceFate:
+			// 命运骰固定投四个骰子，与其他骰子一样计入算力
+			if numOpCountAdd(4) {
+				return
+			}
 			sum, detail := RollFate(ctx.RandSrc, getRollMode())
 			ret := NewIntVal(sum)
 			lastDetail().Ret = ret
